@@ -1248,7 +1248,8 @@ def common(chk, want):
         pr2 = noeffect_run(pr, work)
         st, fails = check_points_to(pr2)
         dist["noeffect_option_probe_obs"] = st["probe_obs"]
-        for key, text in fails:
+        base = set(t for _k, t in check_points_to(pr)[1])
+        for key, text in [x for x in fails if x[1] not in base]:     # only what the option itself breaks
             found_concrete = True
             d = write_replay(chk, "noeffect-" + key, pr2, "with pointer-config.unsafe-no-effect-functions = [pureA pureB pureC] (alias-pure leaf "
                              "functions): " + text)
@@ -1262,7 +1263,8 @@ def common(chk, want):
             pr2 = noeffect_run(progs[0], work)
             st, fails = check_calls(pr2)
             dist["noeffect_option_call_events"] = st["call_events"]
-            for key, text in fails:
+            base = set(t for _k, t in check_calls(progs[0])[1])
+            for key, text in [x for x in fails if x[1] not in base]:     # only what the option itself breaks
                 found_concrete = True
                 d = write_replay(chk, "noeffect-" + key, pr2, "with pointer-config.unsafe-no-effect-functions = [pureA pureB pureC] (alias-pure "
                                  "leaf functions without calls): " + text)
